@@ -32,6 +32,7 @@ import PvModel.Props.C24First
 #print axioms Pv.C24_permute_complete
 #print axioms Pv.C24_member_one_per_position
 #print axioms Pv.C24_member1_one_per_value
+#print axioms Pv.C24_append_functional
 #print axioms Pv.C24_listLen_literal
 #print axioms Pv.C24_count_start
 #print axioms Pv.C24_first
